@@ -198,6 +198,20 @@ Fixpoint failover_from (ep : endpoint) (i : nat) (last : outcome) (ups : list up
 
 Definition failover (ep : endpoint) (ups : list upstream) : fo_result := failover_from ep 0 ONoServers ups.
 
+(** * How config.newFailoverGroup builds the group (generated: the expressions, in the order they are appended)
+
+    The server list is the `uri` of the prometheus block followed by its `failover` entries in the order they were
+    written (nothing re-orders or de-duplicates it), and `required` is what becomes the strict flag. *)
+Fixpoint str_list_eqb (a b : list string) : bool :=
+  match a, b with
+  | [], [] => true
+  | x :: a', y :: b' => String.eqb x y && str_list_eqb a' b'
+  | _, _ => false
+  end.
+
+Definition group_built_in_configured_order : bool :=
+  str_list_eqb group_upstream_order ["prom.URI"; "prom.Failover[]"] && String.eqb group_strict_arg "prom.Required".
+
 (** * Fault sequences: the same group asked again while upstreams have changed their behaviour
 
     The client state (cache entries, known-unsupported flags) is what the previous call left; only what the upstreams
